@@ -40,3 +40,61 @@ Theorem C13_concrete : forall env requestor maxlen (ops : list op), forallb lega
   /\ after_artim (ctl (run_script env requestor maxlen ops)) = true.
 Proof. intros. split; [apply script_eof|apply script_artim]; assumption. Qed.
 Print Assumptions C13_concrete.
+
+(* ---- an ending the peer causes by RESETTING the connection: the provider's next write is refused
+   by the kernel (repair D23).  Control model with a write that may fail in any iteration (cstepw), every
+   history of any length with any pattern of failing writes:
+   - the invariants (never crashed; ARTIM exactly in Sta2 / Sta13; idle => transport closed; not idle =>
+     a transport, or its loss queued as Evt17);
+   - the iteration in which a write is refused keeps the protocol state, closes the transport, queues
+     Evt17 and puts nothing on the wire (failing_step, inv_stepw);
+   - the next iteration, whatever arrives in it, ends at rest with nothing queued and — if an
+     association existed or was being established — an A-P-ABORT indication to the local user
+     (after_failed_write);
+   - a refusing transport changes nothing in an iteration that writes nothing (same_unless_send);
+   - the peer's close and ARTIM expiry end the provider as before (after_eofw, after_artimw). *)
+From PND Require Import Model.Decoder Model.ProviderW Proofs.FsmWProofs Proofs.ProviderWProofs.
+
+Theorem C13_refused_write : forall (r : bool) (is : list (bool * input)),
+  forallb legal_winput is = true ->
+  inv_statew (runw (init r) is) = true /\ after_failed_write (runw (init r) is) = true
+  /\ after_eofw (runw (init r) is) = true /\ after_artimw (runw (init r) is) = true.
+Proof.
+  intros r is H.
+  split; [apply historyw_inv, H|split; [apply historyw_failed, H|split; [apply historyw_eof, H|apply historyw_artim, H]]].
+Qed.
+Print Assumptions C13_refused_write.
+
+Theorem C13_refused_write_step : forall (r : bool) (is : list (bool * input)) (i : input),
+  forallb legal_winput is = true -> legal_input i = true ->
+  inv_stepw (runw (init r) is) i = true /\ failing_step (runw (init r) is) i = true
+  /\ same_unless_send (runw (init r) is) i = true.
+Proof. exact historyw_step. Qed.
+Print Assumptions C13_refused_write_step.
+
+(* the concrete model compared with the implementation (Corr.CorrProviderW.prov_corr_w) *)
+Theorem C13_refused_write_concrete : forall strict env requestor maxlen (ops : list wop),
+  forallb legal_wop ops = true ->
+  inv_statew (ctl (run_scriptw strict env requestor maxlen ops)) = true
+  /\ after_failed_write (ctl (run_scriptw strict env requestor maxlen ops)) = true
+  /\ after_eofw (ctl (run_scriptw strict env requestor maxlen ops)) = true
+  /\ after_artimw (ctl (run_scriptw strict env requestor maxlen ops)) = true.
+Proof. exact scriptw_inv. Qed.
+Print Assumptions C13_refused_write_concrete.
+
+(* the transport that accepts every write — the setting of the theorems above this block — is the
+   special case strict = false *)
+Theorem C13_plain_transport : forall env requestor maxlen (ops : list op),
+  run_scriptw false env requestor maxlen (map Plain ops) = run_script env requestor maxlen ops.
+Proof. exact run_scriptw_plain. Qed.
+Print Assumptions C13_plain_transport.
+
+(* non-vacuity: a script on which a write IS refused (an acceptor in Sta2 receives an unrecognisable PDU
+   with the peer's reset right behind it; AA-1's A-ABORT is refused): Evt17 queued in Sta2, nothing on
+   the wire, at rest one iteration later *)
+Example C13_a_write_is_refused :
+  let env := mkdenv [] [] [] [] in
+  let s1 := run_scriptw true env false 65536 [Plain Idle; SegReset [255; 0; 0; 0; 0; 4; 1; 2; 3; 4]] in
+  let s2 := run_scriptw true env false 65536 [Plain Idle; SegReset [255; 0; 0; 0; 0; 4; 1; 2; 3; 4]; Plain Idle] in
+  failed (ctl s1) = true /\ c_st (ctl s1) = 2 /\ wire s1 = [] /\ at_rest (ctl s2) = true.
+Proof. exact a_write_fails. Qed.
